@@ -40,6 +40,19 @@ def chunkOf : Sexp → Option (List Row)
   | .list rows => rows.mapM rowOf
   | _ => none
 
+/-- `(<tag> <size> <key val>…)` -/
+def sizedRowOf : Sexp → Option (Row × Nat)
+  | .list (.atom tag :: .atom size :: keys) => do
+    let tag ← tag.toNat?
+    let size ← size.toNat?
+    let ks ← keys.mapM valOf
+    pure ({ keys := ks, tag := tag }, size)
+  | _ => none
+
+def batchOf : Sexp → Option (List (Row × Nat))
+  | .list rows => rows.mapM sizedRowOf
+  | _ => none
+
 def tags (rows : List Row) : String := " ".intercalate (rows.map fun r => toString r.tag)
 
 def handle : List Sexp → String
@@ -61,6 +74,12 @@ def handle : List Sexp → String
       let dirs := dirs.map fun | .atom "1" => true | _ => false
       let all := cs.flatten
       tags (sortRows nm dirs all) ++ "|" ++ tags (sortRowsRef nm dirs all) ++ "|" ++ tags (sortSpill nm dirs cs)
+  | [.atom "sortop", .atom nf, .atom rev, .list dirs, .atom limit, .list batches] =>
+    match limit.toNat?, batches.mapM batchOf with
+    | some limit, some bs =>
+      let dirs := dirs.map fun | .atom "1" => true | _ => false
+      tags (sortOp (nf == "1") (rev == "1") dirs limit bs)
+    | _, _ => "bad-val"
   | _ => "bad-op"
 
 end Zed.Drv.C06
